@@ -170,6 +170,12 @@ type LangID uint16
 // Derived languages not exactly supported are mapped to their primary part : for instance,
 // 'fr-be' is mapped to 'fr'
 func NewLangID(l Language) (LangID, bool) {
+	// an exact match in the second part of the table wins over the primary
+	// part fallback of the first one ('ks-devanagari' is not 'ks')
+	extra := languagesInfos[knownLangsCount:]
+	if i := sort.Search(len(extra), func(i int) bool { return extra[i].lang >= l }); i != len(extra) && extra[i].lang == l {
+		return knownLangsCount + LangID(i), true
+	}
 	if i, ok := binarySearchLang(l, languagesInfos[:knownLangsCount]); ok {
 		return LangID(i), true
 	}
